@@ -1,4 +1,5 @@
 import StepModel.ExpressResolve
+import StepModel.ExpressDiagLemmas
 /-! Lemmas about the cycle search of `Express.Resolve` (`dfs`): soundness for both variants, completeness for the
 `continue` variant — for every graph, start node, sibling order and fuel. -/
 namespace StepModel.Express.Resolve
@@ -233,113 +234,353 @@ theorem exportOf_order_independent (f : File) (hnd : NoDupAlias f) (p₁ p₂ : 
         · simp [hp]
       rw [key p₁, key p₂]
 
-/-! ### every diagnostic of a schema carries the file the schema was read from -/
+/-! ### every diagnostic of the model carries the file of its schema, goes through `ERRORreport_with_symbol`, and passes
+arguments that fit the format of its code (regenerated table) -/
 
-/-- all diagnostics of the list are attributed to file `p` -/
-def AllFile (p : String) (ds : List Diag) : Prop := ∀ d ∈ ds, d.file = p.toList ∧ d.via = .symbol
+/-- file of origin, entry point, and arguments fitting the format -/
+def OKd (p : String) (d : Diag) : Prop :=
+  d.file = p.toList ∧ d.via = .symbol ∧ Diag.fits (Diag.parseFmt (Diag.formatOf d.code)) d.args = true
 
-theorem allFile_nil (p : String) : AllFile p [] := by intro d h; simp at h
-theorem allFile_mk (p : String) (c l : Nat) (a : List Arg) : AllFile p [mk p c l a] := by
-  intro d h; simp at h; subst h; exact ⟨rfl, rfl⟩
-theorem allFile_append {p : String} {a b : List Diag} (ha : AllFile p a) (hb : AllFile p b) : AllFile p (a ++ b) := by
+def AllOK (p : String) (ds : List Diag) : Prop := ∀ d ∈ ds, OKd p d
+
+theorem allOK_nil (p : String) : AllOK p [] := by intro d h; simp at h
+theorem allOK_one {p : String} {d : Diag} (h : OKd p d) : AllOK p [d] := by
+  intro x hx; simp at hx; subst hx; exact h
+theorem allOK_append {p : String} {a b : List Diag} (ha : AllOK p a) (hb : AllOK p b) : AllOK p (a ++ b) := by
   intro d h; rcases List.mem_append.mp h with h | h
   · exact ha d h
   · exact hb d h
-theorem allFile_cons {p : String} {a : Diag} {b : List Diag} (ha : a.file = p.toList ∧ a.via = .symbol) (hb : AllFile p b) : AllFile p (a :: b) := by
+theorem allOK_cons {p : String} {a : Diag} {b : List Diag} (ha : OKd p a) (hb : AllOK p b) : AllOK p (a :: b) := by
   intro d h; rcases List.mem_cons.mp h with h | h
   · subst h; exact ha
   · exact hb d h
-theorem allFile_flatMap {α : Type} {p : String} (l : List α) (g : α → List Diag) (h : ∀ x ∈ l, AllFile p (g x)) :
-    AllFile p (l.flatMap g) := by
+theorem allOK_flatMap {α : Type} {p : String} (l : List α) (g : α → List Diag) (h : ∀ x ∈ l, AllOK p (g x)) :
+    AllOK p (l.flatMap g) := by
   intro d hd; obtain ⟨x, hx, hd⟩ := List.mem_flatMap.mp hd; exact h x hx d hd
-theorem allFile_filterMap {α : Type} {p : String} (l : List α) (g : α → Option Diag)
-    (h : ∀ x ∈ l, ∀ d, g x = some d → d.file = p.toList ∧ d.via = .symbol) : AllFile p (l.filterMap g) := by
+theorem allOK_filterMap {α : Type} {p : String} (l : List α) (g : α → Option Diag)
+    (h : ∀ x ∈ l, ∀ d, g x = some d → OKd p d) : AllOK p (l.filterMap g) := by
   intro d hd; obtain ⟨x, hx, hd⟩ := List.mem_filterMap.mp hd; exact h x hx d hd
-theorem allFile_map {α : Type} {p : String} (l : List α) (g : α → Diag) (h : ∀ x ∈ l, (g x).file = p.toList ∧ (g x).via = .symbol) :
-    AllFile p (l.map g) := by
+theorem allOK_map {α : Type} {p : String} (l : List α) (g : α → Diag) (h : ∀ x ∈ l, OKd p (g x)) :
+    AllOK p (l.map g) := by
   intro d hd; obtain ⟨x, hx, hd⟩ := List.mem_map.mp hd; subst hd; exact h x hx
 
-theorem typeRefDiags_file (p : String) (env : Env) (s : Schema) : ∀ t, AllFile p (typeRefDiags p env s t)
-  | .simple => by simp [typeRefDiags, allFile_nil]
-  | .aggr b => by simpa [typeRefDiags] using typeRefDiags_file p env s b
+/-- closes `OKd p (mk p CODE line [args…])` for a concrete code and argument shapes -/
+macro "okd" : tactic =>
+  `(tactic| (refine ⟨rfl, rfl, ?_⟩
+             apply Diag.fits_of_codeFits
+             simp only [mk, sArg, List.map, Diag.Arg.kind]
+             decide))
+
+theorem typeRefDiags_ok (p : String) (env : Env) (s : Schema) : ∀ t, AllOK p (typeRefDiags p env s t)
+  | .simple => by simp [typeRefDiags, allOK_nil]
+  | .aggr b => by simpa [typeRefDiags] using typeRefDiags_ok p env s b
   | .named n l => by
     simp only [typeRefDiags]
     split
-    · exact allFile_nil p
+    · exact allOK_nil p
     · split
-      · exact allFile_mk _ _ _ _
+      · exact allOK_one (by okd)
       · split
-        · exact allFile_mk _ _ _ _
-        · exact allFile_nil p
-        · exact allFile_mk _ _ _ _
+        · exact allOK_one (by okd)
+        · exact allOK_nil p
+        · exact allOK_one (by okd)
 
-theorem pass1_file (f : File) (s : Schema) : AllFile (fileOf f s) (pass1 f s) := by
-  apply allFile_flatMap
+theorem dupDiags_ok (p : String) : ∀ items seen, AllOK p (dupDiags p items seen)
+  | [], _ => by simp [dupDiags, allOK_nil]
+  | (n, l) :: rest, seen => by
+    simp only [dupDiags]
+    split
+    · exact allOK_cons (by okd) (dupDiags_ok p rest seen)
+    · exact dupDiags_ok p rest _
+
+set_option maxRecDepth 8000 in
+theorem declParseDiags_ok (p : String) (d : Decl) : AllOK p (declParseDiags p d) := by
+  cases d with
+  | entity e =>
+    apply allOK_append (dupDiags_ok _ _ _)
+    apply allOK_flatMap; intro r _
+    apply allOK_filterMap; intro x _ d hd
+    cases x <;> simp at hd
+    subst hd; okd
+  | type t =>
+    simp only [declParseDiags]
+    split
+    · exact dupDiags_ok _ _ _
+    · exact allOK_nil _
+  | func _ => exact allOK_nil _
+  | syntaxError _ _ _ => exact allOK_nil _
+
+theorem parseDeclsFrom_ok (p : String) : ∀ ds seen, AllOK p (parseDeclsFrom p ds seen).1
+  | [], _ => by simp [parseDeclsFrom, allOK_nil]
+  | d :: ds, seen => by
+    cases d with
+    | syntaxError k n l => simp only [parseDeclsFrom]; exact allOK_one (by okd)
+    | entity e =>
+      simp only [parseDeclsFrom, declKey]
+      split
+      · exact allOK_cons (by okd) (allOK_append (declParseDiags_ok _ _) (parseDeclsFrom_ok p ds _))
+      · exact allOK_append (declParseDiags_ok _ _) (parseDeclsFrom_ok p ds _)
+    | type t =>
+      simp only [parseDeclsFrom, declKey]
+      split
+      · exact allOK_cons (by okd) (allOK_append (declParseDiags_ok _ _) (parseDeclsFrom_ok p ds _))
+      · exact allOK_append (declParseDiags_ok _ _) (parseDeclsFrom_ok p ds _)
+    | func fn =>
+      simp only [parseDeclsFrom, declKey]
+      split
+      · exact allOK_cons (by okd) (allOK_append (declParseDiags_ok _ _) (parseDeclsFrom_ok p ds _))
+      · exact allOK_append (declParseDiags_ok _ _) (parseDeclsFrom_ok p ds _)
+
+theorem pass1_ok (f : File) (s : Schema) : AllOK (fileOf f s) (pass1 f s) := by
+  apply allOK_flatMap
   intro i _
   split
-  · exact allFile_nil _
+  · exact allOK_nil _
   · split
-    · exact allFile_map _ _ (fun _ _ => ⟨rfl, rfl⟩)
-    · exact allFile_mk _ _ _ _
+    · exact allOK_map _ _ (fun _ _ => by okd)
+    · exact allOK_one (by okd)
 
-theorem aliasDups_file (p : String) : ∀ items seen, AllFile p (aliasDups p items seen)
-  | [], _ => by simp [aliasDups, allFile_nil]
+theorem aliasDups_ok (p : String) : ∀ items seen, AllOK p (aliasDups p items seen)
+  | [], _ => by simp [aliasDups, allOK_nil]
   | (n, l, o) :: rest, seen => by
     simp only [aliasDups]
     split
     · split
-      · exact aliasDups_file p rest seen
-      · exact allFile_cons ⟨rfl, rfl⟩ (aliasDups_file p rest seen)
-    · exact aliasDups_file p rest _
+      · exact aliasDups_ok p rest seen
+      · exact allOK_cons (by okd) (aliasDups_ok p rest seen)
+    · exact aliasDups_ok p rest _
 
-theorem pass2_file (f : File) (fb : Bool) (s : Schema) : AllFile (fileOf f s) (pass2 f fb s) := by
+theorem pass2_ok (f : File) (fb : Bool) (s : Schema) : AllOK (fileOf f s) (pass2 f fb s) := by
   have miss : ∀ (items : List (String × Item)),
-      AllFile (fileOf f s) (items.filterMap fun x =>
+      AllOK (fileOf f s) (items.filterMap fun x =>
         match exportOf f fb (processedBefore f s.name) (importFuel f) x.1 x.2.old with
         | some _ => none
         | none => some (mk (fileOf f s) LibErrors.REF_NONEXISTENT x.2.line [sArg x.2.old, sArg x.1])) := by
     intro items
-    apply allFile_filterMap
+    apply allOK_filterMap
     intro x _ d hd
-    split at hd <;> first | (simp at hd; done) | (simp at hd; subst hd; exact ⟨rfl, rfl⟩) | (simp at hd; obtain ⟨_, rfl⟩ := hd; exact ⟨rfl, rfl⟩)
+    split at hd
+    · simp at hd
+    · simp at hd; subst hd; okd
   simp only [pass2]
-  exact allFile_append (allFile_append (allFile_append (miss _) (aliasDups_file _ _ _)) (miss _)) (aliasDups_file _ _ _)
+  exact allOK_append (allOK_append (allOK_append (miss _) (aliasDups_ok _ _ _)) (miss _)) (aliasDups_ok _ _ _)
 
-theorem pass3_file (p : String) (env : Env) (s : Schema) : AllFile p (pass3 p env s) := by
-  apply allFile_flatMap
+theorem subtypeResolve_ok (p : String) (l : Nat) (n dn : String) (dl : Nat) :
+    OKd p (mk p LibErrors.SUBTYPE_RESOLVE l (subtypeResolveArgs n dn dl)) := by
+  refine ⟨rfl, rfl, ?_⟩
+  have h : ResolveGen.subtypeResolvePassesName = true := by decide
+  apply Diag.fits_of_codeFits
+  simp only [mk, subtypeResolveArgs, h, if_true, sArg, List.map, Diag.Arg.kind]
+  decide
+
+theorem pass3_ok (p : String) (env : Env) (s : Schema) : AllOK p (pass3 p env s) := by
+  apply allOK_flatMap
   intro decl _
   cases decl with
   | entity e =>
-    apply allFile_append
-    · apply allFile_filterMap; intro x _ d hd
+    apply allOK_append
+    · apply allOK_filterMap; intro x _ d hd
       obtain ⟨n, l⟩ := x
       simp only at hd
       split at hd
       · simp at hd
-      · split at hd <;> (simp at hd; subst hd; exact ⟨rfl, rfl⟩)
-    · apply allFile_filterMap; intro x _ d hd
+      · split at hd <;> (simp at hd; subst hd; okd)
+    · apply allOK_filterMap; intro x _ d hd
       split at hd
       · simp at hd
-      · split at hd <;> (simp at hd; subst hd; exact ⟨rfl, rfl⟩)
+      · split at hd
+        · simp at hd; subst hd; exact subtypeResolve_ok _ _ _ _ _
+        · simp at hd; subst hd; okd
   | type t =>
     simp only
     split
-    · apply allFile_append
-      · apply allFile_append
+    · apply allOK_append
+      · apply allOK_append
         · split
           · split
-            · exact allFile_mk _ _ _ _
-            · exact allFile_nil _
-          · exact allFile_nil _
-        · exact typeRefDiags_file _ _ _ _
+            · exact allOK_one (by okd)
+            · exact allOK_nil _
+          · exact allOK_nil _
+        · exact typeRefDiags_ok _ _ _ _
       · split
         · split
-          · exact allFile_mk _ _ _ _
-          · exact allFile_nil _
-        · exact allFile_nil _
-    · apply allFile_flatMap; intro x _; exact typeRefDiags_file _ _ _ _
-    · exact allFile_nil _
-  | func _ => exact allFile_nil _
-  | syntaxError _ _ _ => exact allFile_nil _
+          · exact allOK_one (by okd)
+          · exact allOK_nil _
+        · exact allOK_nil _
+    · apply allOK_flatMap; intro x _; exact typeRefDiags_ok _ _ _ _
+    · exact allOK_nil _
+  | func _ => exact allOK_nil _
+  | syntaxError _ _ _ => exact allOK_nil _
+
+theorem cycleDiags_ok (p : String) (lc cc : Nat) (lineOf : String → Nat) (start : String)
+    (hl : ∀ l n, OKd p (mk p lc l [sArg n])) (hc : ∀ l n, OKd p (mk p cc l [sArg n])) :
+    ∀ r, AllOK p (cycleDiags p lc cc lineOf start r)
+  | none => allOK_nil _
+  | some r => by
+    simp only [cycleDiags]
+    split
+    · exact allOK_cons (hl _ _) (allOK_map _ _ (fun _ _ => hc _ _))
+    · exact allOK_nil _
+
+theorem inverseDiags_ok (p : String) (s : Schema) (a : Attr) (h : String → String → Bool) : AllOK p (inverseDiags p s a h) := by
+  simp only [inverseDiags]
+  split
+  · exact allOK_nil _
+  · split
+    · split
+      · split
+        · exact allOK_nil _
+        · exact allOK_one (by okd)
+      · split
+        · exact allOK_one (by okd)
+        · exact allOK_nil _
+    · exact allOK_one (by okd)
+
+theorem uniqueDiags_ok (p : String) (s : Schema) (e : Entity) (fuel : Nat) (u : UniqueItem) :
+    AllOK p (uniqueDiags p s e fuel u) := by
+  have hu : AllOK p (match namedAttr s u.attr fuel e.name with
+      | some true => []
+      | _ => [mk p LibErrors.UNKNOWN_ATTR_IN_ENTITY u.line [sArg u.attr, sArg e.name]]) := by
+    split
+    · exact allOK_nil _
+    · exact allOK_one (by okd)
+  have hn : AllOK p (if e.attrs.any (·.name = u.attr) then [mk p LibErrors.UNIQUE_QUAL_REDECL u.line [sArg u.attr, sArg e.name]] else []) := by
+    split
+    · exact allOK_one (by okd)
+    · exact allOK_nil _
+  simp only [uniqueDiags]
+  split
+  · exact hu
+  · split
+    · exact allOK_append (allOK_append (allOK_cons (by okd) (allOK_one (by okd))) hu) hn
+    · split
+      · exact hu
+      · split
+        · exact allOK_append hn hu
+        · exact allOK_append (allOK_append (allOK_cons (by okd) (allOK_one (by okd))) hu) hn
+
+theorem pass4_ok (p : String) (env : Env) (s : Schema) : AllOK p (pass4 p env s) := by
+  apply allOK_flatMap
+  intro decl _
+  cases decl with
+  | type t =>
+    simp only
+    split
+    · exact cycleDiags_ok _ _ _ _ _ (fun _ _ => by okd) (fun _ _ => by okd) _
+    · exact allOK_nil _
+  | entity e =>
+    simp only
+    refine allOK_append (allOK_append (allOK_append ?_ ?_) ?_) ?_
+    · apply allOK_filterMap; intro x _ d hd
+      split at hd
+      · split at hd
+        · simp at hd
+        · simp at hd; subst hd; okd
+      · simp at hd
+    · apply allOK_flatMap; intro a _
+      apply allOK_append (typeRefDiags_ok _ _ _ _)
+      split
+      · exact inverseDiags_ok _ _ _ _
+      · exact allOK_nil _
+    · apply allOK_flatMap; intro u _; exact uniqueDiags_ok _ _ _ _ _
+    · exact cycleDiags_ok _ _ _ _ _ (fun _ _ => by okd) (fun _ _ => by okd) _
+  | func _ => exact allOK_nil _
+  | syntaxError _ _ _ => exact allOK_nil _
+
+theorem callDiags_ok (p : String) (s : Schema) (r : Rule) (fn : String) (argc : Nat) : AllOK p (callDiags p s r fn argc) := by
+  simp only [callDiags]
+  split
+  · split
+    · exact allOK_nil _
+    · exact allOK_one (by okd)
+  · split
+    · split
+      · exact allOK_nil _
+      · exact allOK_one (by okd)
+    · exact allOK_cons (by okd) (allOK_one (by okd))
+
+theorem typeRuleDiags_ok (p : String) (s : Schema) : AllOK p (typeRuleDiags p s) := by
+  apply allOK_flatMap; intro t _
+  apply allOK_flatMap; intro r _
+  apply allOK_flatMap; intro it _
+  cases it with
+  | call fn argc => exact callDiags_ok _ _ _ _ _
+  | _ => exact allOK_nil _
+
+theorem entityPass5_ok (p : String) (s : Schema) (fuel : Nat) (e : Entity) : AllOK p (entityPass5 p s fuel e) := by
+  refine allOK_append (allOK_append ?_ ?_) ?_
+  · apply allOK_filterMap
+    intro x hx d hd
+    obtain ⟨r, d0⟩ := x
+    simp only at hd
+    split at hd
+    · simp at hd; subst hd
+      -- every candidate is an OVERLOADED_ATTR diagnostic built by `mk`
+      simp only [overloadCands, List.mem_flatMap] at hx
+      obtain ⟨a, _, hx⟩ := hx
+      split at hx
+      · simp at hx
+      · simp only [List.mem_map] at hx
+        obtain ⟨sup, _, hx⟩ := hx
+        simp at hx; obtain ⟨_, rfl⟩ := hx; okd
+    · simp at hd
+  · apply allOK_flatMap; intro a _
+    split
+    · exact allOK_nil _
+    · split
+      · exact allOK_one (by okd)
+      · split
+        · split
+          · exact allOK_nil _
+          · exact allOK_one (by okd)
+        · exact allOK_nil _
+  · apply allOK_flatMap; intro r _
+    apply allOK_flatMap; intro it _
+    cases it with
+    | call fn argc => exact callDiags_ok _ _ _ _ _
+    | selfAttr an =>
+      simp only [ruleItemDiags]
+      split
+      · exact allOK_nil _
+      · exact allOK_one (by okd)
+    | bareAttr an =>
+      simp only [ruleItemDiags]
+      split
+      · exact allOK_nil _
+      · exact allOK_cons (by okd) (allOK_one (by okd))
+    | badGroup an => exact allOK_cons (by okd) (allOK_one (by okd))
+    | smallReal _ => exact allOK_nil _
+
+theorem pass5_ok (p : String) (s : Schema) : AllOK p (pass5 p s).diags := by
+  simp only [pass5]
+  exact allOK_append (typeRuleDiags_ok _ _) (allOK_flatMap _ _ (fun e _ => entityPass5_ok _ _ _ e))
+
+theorem parseSchemas_ok (p : String) : ∀ ss, AllOK p (parseSchemas p ss)
+  | [] => by simp [parseSchemas, allOK_nil]
+  | s :: ss => by
+    simp only [parseSchemas]
+    split
+    · exact parseDeclsFrom_ok _ _ _
+    · exact allOK_append (parseDeclsFrom_ok _ _ _) (parseSchemas_ok p ss)
+
+theorem parseDiags_ok (f : File) : AllOK f.path (parseDiags f) := parseSchemas_ok _ _
+
+/-- every diagnostic of the resolve phase of a (multi-schema, multi-file) run is well formed for SOME file of the run: the
+    file of the schema whose pass produced it -/
+theorem resolveDiags_ok (f : File) : ∀ d ∈ (resolveDiags f).diags, ∃ p, OKd p d := by
+  intro d hd
+  simp only [resolveDiags, List.mem_append, List.mem_flatMap] at hd
+  rcases hd with ((((hd | hd) | hd) | hd) | hd) | hd
+  · simp only [externalParseDiags, List.mem_flatMap] at hd
+    obtain ⟨s, _, hd⟩ := hd
+    exact ⟨_, parseDeclsFrom_ok _ _ _ d hd⟩
+  · obtain ⟨s, _, hd⟩ := hd; exact ⟨_, pass1_ok f s d hd⟩
+  · obtain ⟨s, _, hd⟩ := hd; exact ⟨_, pass2_ok f _ s d hd⟩
+  · obtain ⟨s, _, hd⟩ := hd; exact ⟨_, pass3_ok _ _ s d hd⟩
+  · obtain ⟨s, _, hd⟩ := hd; exact ⟨_, pass4_ok _ _ s d hd⟩
+  · obtain ⟨x, hx, hd⟩ := hd
+    simp only [List.mem_map] at hx
+    obtain ⟨s, _, rfl⟩ := hx
+    exact ⟨_, pass5_ok _ s d hd⟩
 
 end StepModel.Express.Resolve
